@@ -705,6 +705,61 @@ func checkC04(p *Prog, r *Report) {
 		})
 		r.Check(!escapes, "first datagram from a source: the matched remote is marked seen", p.Pos(f.Body.Pos()), "seen(false) whenever a remote candidate was found", "the slow path validates a source without refreshing the remote's last-received time")
 	}
+	// ---- R4.7 one callback at a time, in transition order ---------------------------------------------
+	r.Rule("R4.7", "The connection-state stream delivers one event at a time in queue order: events are appended at the tail under the notifier mutex, a drainer is started only if none is running, and the running flag is cleared only when the drainer has found the queue empty and then returns without calling the handler again (protocol summary shared with C11 R11.1).", 1)
+	if f := p.Fn("handlerNotifier.EnqueueConnectionState"); r.Anchor("handlerNotifier.EnqueueConnectionState", f != nil) {
+		s := p.summarizeStream(f)
+		r.Check(len(s.problems) == 0, "stream "+f.Name, p.Pos(f.Body.Pos()), strings.Join(s.protocol, " "), strings.Join(dedupStrings(s.problems), "; ")+": a second drainer can run while a handler is still executing, so the callback for a later transition can start (and finish) before the one for an earlier transition")
+	}
+
+	// ---- R4.8 the silence clock survives candidate replacement ------------------------------------------
+	r.Rule("R4.8", "When a signalled candidate replaces a peer-reflexive one, the last-received time is carried over on a condition that depends only on the two last-received times (and the setter assertion), and likewise for last-sent: the silence of the selected remote is measured from the last datagram actually received, not from zero.", 2)
+	if f := p.Fn("copyCandidateActivity"); r.Anchor("copyCandidateActivity", f != nil) {
+		for _, pr := range [][2]string{{"setLastReceived", "LastReceived"}, {"setLastSent", "LastSent"}} {
+			other := "LastSent"
+			if pr[1] == "LastSent" {
+				other = "LastReceived"
+			}
+			n := 0
+			walkBody(f, func(x ast.Node) bool {
+				c, ok := x.(*ast.CallExpr)
+				if !ok || !strings.HasSuffix(p.CalleeName(c), "."+pr[0]) {
+					return true
+				}
+				n++
+				foreign, own := "", false
+				for _, ft := range p.DominatingFactList(f, c) {
+					for _, e := range []ast.Expr{ft.X, ft.Y} {
+						if e == nil {
+							continue
+						}
+						for _, cn := range p.callsFeeding(f, e, 0, map[types.Object]bool{}) {
+							if strings.HasSuffix(cn, "."+other) {
+								foreign = cn
+							}
+							if strings.HasSuffix(cn, "."+pr[1]) {
+								own = true
+							}
+						}
+					}
+				}
+				argOK := len(c.Args) == 1
+				if argOK {
+					argOK = false
+					for _, cn := range p.callsFeeding(f, c.Args[0], 0, map[types.Object]bool{}) {
+						if strings.HasSuffix(cn, "."+pr[1]) {
+							argOK = true
+						}
+					}
+				}
+				r.Check(foreign == "" && own && argOK, "copyCandidateActivity: "+pr[0], p.Pos(c.Pos()), "condition and value depend on "+pr[1]+" only", fmt.Sprintf("the carried-over %s depends on %s (value from %s: %v): a replaced remote that was heard from but never written to loses its last-received time, the next tick measures an unbounded silence and the agent reports Disconnected / Failed for a peer heard milliseconds ago", pr[1], orQ(foreign), pr[1], argOK))
+				return true
+			})
+			if n == 0 {
+				r.Fail("copyCandidateActivity: "+pr[0], p.Pos(f.Body.Pos()), "the "+pr[1]+" time is no longer carried over to the replacing candidate")
+			}
+		}
+	}
 }
 
 func hasPrefixKey(m map[string]string, name string) bool {
